@@ -116,15 +116,14 @@ impl Signature {
     pub fn from_compact_impl(compact_bytes: &[u8]) -> Result<Signature, BSVErrors> {
         // 27-30: P2PKH uncompressed
         // 31-34: P2PKH compressed
-        let (recovery, is_compressed) = match (compact_bytes[0] - 27) as i8 - 4 {
-            x if x < 0 => (x + 4, false),
-            x => (x, true),
-        };
-
-        // TODO: Check Recovery Endianness so we can recover x and y info.
-        if recovery > 3 {
-            return Err(BSVErrors::SignatureError("Cannot have recovery byte that is larger than 3."));
+        if compact_bytes.len() != 65 {
+            return Err(BSVErrors::SignatureError("Compact signatures are exactly 65 bytes long."));
         }
+        let (recovery, is_compressed) = match compact_bytes[0] {
+            header @ 27..=30 => ((header - 27) as i8, false),
+            header @ 31..=34 => ((header - 31) as i8, true),
+            _ => return Err(BSVErrors::SignatureError("Cannot have recovery byte that is larger than 3.")),
+        };
 
         let r = *FieldBytes::from_slice(&compact_bytes[1..33]);
         let s = *FieldBytes::from_slice(&compact_bytes[33..65]);
